@@ -60,7 +60,12 @@ class LoopSpec:
     """sidecar loop contract: invariant + what the loop may modify"""
 
     def __init__(self, inv, modifies=(), schemas=None, name=None, unroll=None):
-        self.inv = inv  # callable(ex, k) -> z3 bool  (k is None for while loops)
+        def guarded(ex, k, _inv=inv):
+            try:
+                return _inv(ex, k)
+            except KeyError as e:      # the invariant names a local that the loop no longer has (renamed / restructured): undecided, not a crash
+                raise Unsupported(f"loop invariant refers to a local that does not exist any more: {e} (sidecar contract needs updating)")
+        self.inv = guarded  # callable(ex, k) -> z3 bool  (k is None for while loops)
         self.modifies = list(modifies)  # names / 'self.attr' paths beyond the syntactically assigned names
         self.schemas = schemas or {}
         self.name = name
@@ -383,6 +388,10 @@ class Exec:
     def s_Assert(self, n):
         c = self.truth(self.expr(n.test))
         if is_sym(c):
+            if self.opts.get("assert_raises"):       # opt-in: the assert is the function's documented way of refusing an input, not a safety condition
+                if not self.decide(c):
+                    raise RaiseEx("AssertionError", n.lineno)
+                return
             self.oblige(f"assert@{n.lineno}", c, kind="code-assert", node=n)
         elif not c:
             raise RaiseEx("AssertionError", n.lineno)
@@ -527,9 +536,31 @@ class Exec:
             return it.pyvc_iter()
         return None
 
+    def _drop_k_loop(self, n, it):
+        """recognised idiom, summarised exactly (the statement form of `[q.popleft() for _ in range(k)]`):
+               for _ in range(k): q.popleft()
+        removes the k oldest entries of q in order; k <= len(q) is a safety obligation. The loop variable must be unused."""
+        if not (isinstance(it, _SymRange) and len(n.body) == 1 and isinstance(n.body[0], ast.Expr) and not n.orelse and isinstance(n.target, ast.Name)):
+            return False
+        c = n.body[0].value
+        if not (isinstance(c, ast.Call) and isinstance(c.func, ast.Attribute) and c.func.attr == "popleft" and not c.args and not c.keywords):
+            return False
+        if any(isinstance(x, ast.Name) and x.id == n.target.id for x in ast.walk(c)):
+            return False
+        q = self.expr(c.func.value)
+        if not isinstance(q, Seq):
+            return False
+        self.assumptions_used.add("for _ in range(k): q.popleft() removes the k oldest entries in order (loop summary; k <= len(q) is an obligation)")
+        k = it.n
+        self.oblige("drop-k-heads-available", z3.And(k >= 0, k <= q.length()), kind="safety", node=n)
+        q.lo = q.lo + k
+        return True
+
     def symbolic_for(self, n, it):
         lid = self.loop_id(n)
         spec = self.loops.get(lid) or self.loops.get(lid[0] + "#" + str(lid[1]))
+        if spec is None and self._drop_k_loop(n, it):
+            return
         if spec is None:
             raise Unsupported(f"loop {lid} over a symbolic range needs an invariant")
         if isinstance(it, _SymRange):
